@@ -30,7 +30,11 @@ def selftest(prop, R):
         for fn, props in json.load(open(mp)).items():
             if prop in props:
                 patches.append((fn, os.path.join(VERIF, 'mutants', fn)))
-    killed, skipped = [], []
+    killed, skipped, missed = [], [], []
+    declined = {}
+    dp = os.path.join(VERIF, 'seeded', 'DECLINED.json')
+    if os.path.exists(dp):
+        declined = json.load(open(dp))
     for name, path in patches:
         d = tempfile.mkdtemp(prefix='sfa_self_')
         try:
@@ -47,13 +51,21 @@ def selftest(prop, R):
                 fired = any(not o[2] for o in R2.obligations)
             except ExtractError:
                 fired = True  # does not compile any more: trivially not silent
-            R.ob('SELF-detects', name, fired, 'the check reports a violation on the tree with this behaviour-breaking change applied' if fired else
-                 'the check stays silent on a change known to break the property', None)
+            # A miss says something about the checker, not about /repo: it is recorded in the evidence (and printed), never
+            # turned into a violation of the property on the unchanged tree.
             if fired:
                 killed.append(name)
+                R.ob('SELF-detects', name, True, 'the check reports a violation on the tree with this behaviour-breaking change applied', None)
+            else:
+                missed.append(name)
         finally:
             shutil.rmtree(d, ignore_errors=True)
-    R.extra['selftest'] = {'changes': len(patches), 'detected': killed, 'skipped_no_longer_apply': skipped}
+    R.extra['selftest'] = {'changes': len(patches), 'detected': killed, 'skipped_no_longer_apply': skipped,
+                           'not_detected_declined_clause': {n: declined[n] for n in missed if n in declined},
+                           'not_detected_unexplained': [n for n in missed if n not in declined]}
+    print('SELFTEST %s: %d/%d behaviour-breaking changes detected; not detected: %s' % (
+        prop, len(killed), len(patches) - len(skipped),
+        ', '.join('%s (%s)' % (n, 'declined clause' if n in declined else 'UNEXPLAINED') for n in missed) or 'none'))
 
 
 def main(argv=None):
